@@ -189,7 +189,7 @@ def run(ctx, only=None):
             bad(f['kind'], f'{f["method"]}|{f["path"]}', f'{f["method"]} via {f["path"]}: {f["detail"]}')
         ctx.outcome('judged')
         ctx.sample(dict(state=st['id'], transport=tr, present=obs['present']), limit=3)
-    if not only and calls < 500:
+    if not only and calls < 500 and not ctx.violations:
         raise HarnessError(f'C17 exploration collapsed: {calls} driven calls')
     ctx.extra['bound'] = 'every rule subset per mixin API; all API combinations; 3 transports'
 
